@@ -5,6 +5,9 @@ sys.path.insert(0, "/verif")
 import verif
 
 LEVEL_TEXT = {
+ "C01": "The oracle is a Lean 4 transliteration of ECMA-262 (2025) pattern semantics over code points (RegressModel/Spec, written without reading the Rust sources, validated against V8 on 225 000 cases); theorems establish the laws the property's wording relies on (the returned match starts at the least offset >= start at which the anchored ordered search succeeds, with that attempt's end and captures; alternation/sequence associativity; fuel monotonicity). The full statement (implementation = specification for every pattern, haystack, start) is NOT a theorem: it is decided per run by a differential in which the harness generates pattern ASTs, prints them as a pattern string for the implementation and as an AST for the specification, and reports every difference with the concrete input. The executor models (Lean Bt/PikeVM on the dumped bytecode) are tied separately (C02).",
+ "C04": "Theorems: (A) for the model of next_match_with_prefix_search any admissible prefix scan returns exactly what the plain scan returns (match, captures and next_start), for an arbitrary matcher; (B) the modelled byte scans return the first index passing the byte test and skip only failing indices; (C) every code point of an interval has its UTF-8 lead byte in the computed first-byte set, and that set is exact. Soundness of the predicate derived from the IR (start_pred_sound) is in the IR-semantics development (Proofs/C04Sem when present); meanwhile it is decided per run by the differential 'with predicate vs StartPredicate::Arbitrary vs PikeVM' on a generator biased towards prefix-relevant first terms, plus the executor tie (Lean backtracker incl. prefilter model on dumped bytecode).",
+ "C10": "The property quantifies over a finite domain (pairs of code points x {unicode, legacy}); it is closed in the Lean kernel over FOLDS / TO_UPPERCASE regenerated from src/unicodetables.rs on every run: rows well-formed, fold idempotent, fold classes = Unicode 17 simple-case-folding classes (ICU 78.2 snapshot), unfold_char / add_icase_code_points (compile-time expansion, incl. the stride walk) = match-time folding, class size <= 4, the non-ASCII word-character table, ASCII agreement. The legacy half is proved FALSE with the exact set D of 29 code points where uppercase differs from ES legacy Canonicalize (known finding F8). The engine-level relation is swept for every code point with a non-trivial class (literal, [c], [^c], (c)\\1, \\w, \\b in i / iu / iv).",
  "C19": "Theorem (Lean 4): for any schedule, every thread's executor state is what it reaches alone in as many steps as the schedule gave it (so results are schedule- and history-independent), over a model in which a search step is a function of the shared program and thread-local state. The premises that make this the right model are checked on every run: the translator regenerates an inventory of every interior-mutability / shared-state type occurring in src/*.rs and `decide` proves it empty; rustc checks Send+Sync for Regex, Match, Error, Flags when the harness is built; a stress run compares sequential results with reordered and 16-thread concurrent results on shared and cloned regexes.",
  "C09": "Theorems (Lean 4, all inputs) about the model of exec::Matches and the three next_match loops, parametric in an arbitrary matcher satisfying EnvOK: the iterator equals the lastIndex unfold, results increase, never overlap, number at most len-start+1, the iterator stays exhausted, a start beyond the end yields nothing, and the prefilter is transparent. The model is tied to the code by running model and implementation on attempt tables taken from the real executors (every start offset, both executors).",
  "C11": "The property quantifies over a finite domain (all names x all code points); it is closed exhaustively in the Lean kernel: the name maps and all 368 interval tables are regenerated from src/unicodetables.rs on every run, and `decide +kernel` shows that regress's accepted names and their tables are literally ICU 78.2's (Unicode 17) for lone names, gc=, sc=, scx=; lifted to every name and code point by proved lemmas. The engine path (parser -> bracket -> runtime contains) is tied by dumping the table the real parser builds for every candidate name and sweeping all scalar values through the real matcher.",
@@ -14,6 +17,9 @@ LEVEL_TEXT = {
  "C18": "Theorems about the model of escape (the 14-character list is regenerated from api.rs by the translator): only backslashes are inserted, every syntax character is escaped. The behavioural half (escape(s) compiles under all 12 flag sets and finds exactly the occurrences of s) is an exhaustive enumeration of all short strings over the syntax alphabet against substring search - a bounded test, stated as such.",
 }
 NOTES = {
+ "C01": "Trusted: the Lean ES specification (Spec/*.lean; V8 as referee where V8 implements the feature; 4 classes of V8 11.3 v-mode defects adjudicated by hand), the AST printer of the harness. Without u/v the specification works on code points, not UTF-16 code units (as the property says). Bounded: the differential explores generated cases only.",
+ "C04": "EnvOK / PrefilterAdmissible are hypotheses of (A); admissibility of the real predicate is the part not yet proved (tied by differential). memchr/memmem are modelled as first-occurrence scans.",
+ "C10": "Trusted: ICU 78.2 case folding as observed through V8 (oracle/casefold17.json) and the translator. Open known finding F8 (legacy i): identified by the class predicate in known_findings.json; u/v modes are fully proved.",
  "C19": "Not modelled and named as such: the Rust memory model, real thread scheduling, and that the auto traits really hold - the latter is checked by rustc on every build of the harness (assert_send_sync::<Regex/Match/Error>), the former two are only exercised by the 16-thread stress run. The theorem itself is simple by design: in the model a step takes the program as an argument and returns only executor-local state.",
  "C09": "Assumes EnvOK (attempts end within the haystack, next_right_pos progresses) - discharged per case by the data taken from the real executors; the matcher itself is abstract here (its model is the VM files). Model vs code: differential, bounded by the generator.",
  "C11": "Trusted: the ICU 78.2 snapshot as observed through V8 (oracle/props17.json), the translator (its output is cross-checked against the table the real parser builds for every name). Properties of strings (\\p{RGI_Emoji} etc.) are only checked for accept/reject rules, not for content (V8 cannot enumerate them).",
@@ -25,6 +31,8 @@ NOTES = {
 checks = []
 for pid in sorted(verif.PLANS):
     plan = verif.PLANS[pid]
+    if not plan["proofs"] or pid not in LEVEL_TEXT:
+        continue
     checks.append({
         "property_id": pid,
         "quick_cmd": "python3 verif.py check %s --tier quick" % pid,
@@ -38,7 +46,7 @@ for pid in sorted(verif.PLANS):
     })
 all_ids = ["C%02d" % i for i in range(1, 21)]
 na = [{"property_id": p, "reason": "check not built yet (work in progress; see DESIGN.md §7 order of work) - not a claim that the technique is inapplicable"}
-      for p in all_ids if p not in verif.PLANS]
+      for p in all_ids if p not in [c['property_id'] for c in checks]]
 hooks = subprocess.run(["git", "-C", "/repo", "log", "--format=%h %s"], capture_output=True, text=True).stdout.splitlines()
 man = {
  "version": 1,
@@ -51,7 +59,7 @@ man = {
    "add_only": True,
  },
  "engines": [
-   {"name": "lean4+harness", "path": "/verif/lean, /verif/harness, /verif/verif.py", "serves_properties": sorted(verif.PLANS),
+   {"name": "lean4+harness", "path": "/verif/lean, /verif/harness, /verif/verif.py", "serves_properties": [c["property_id"] for c in checks],
     "kind_free_text": "Lean 4 model + theorems (lake), translator from source, Rust correspondence harness, line-protocol driver"}],
  "checks": checks,
  "not_applicable": na,
